@@ -277,6 +277,7 @@ def step (st : St) (args : List String) : St × String :=
   | ["probe"] => (st, "done")
   | ["jprobe", _] => (st, "done")
   | ["mprobe", _] => (st, "done")
+  | ["fprobe", _] => (st, "done")
   | ["full"] =>
     match st.cur with
     | none => (st, "no-session")
